@@ -163,6 +163,15 @@ func runC13(c *core.Case) {
 				t.vz, t.z = p.vz, p.z
 			case 2: // same footprint, other vertical zoom
 				t.h, t.x, t.y = p.h, p.x, p.y
+			case 3: // same key and low index bits, other multiples of 2^31 in x and y (keys that pack or pair 32-bit halves)
+				if p.h >= 32 {
+					t = p
+					t.x = r.I64n(pow2(p.h-31))<<31 | p.x&(1<<31-1)
+					t.y = r.I64n(pow2(p.h-31))<<31 | p.y&(1<<31-1)
+					if r.Bool() {
+						t.x, t.y = r.I64n(pow2(p.h-31))<<31, r.I64n(pow2(p.h-31))<<31
+					}
+				}
 			}
 		}
 		tiles = append(tiles, t)
